@@ -14,6 +14,7 @@ INST = {
 UNITS = {
     "drv": ("units/drv.rs", None),
     "final": ("units/final.rs", None),
+    "rank": ("units/rank.rs", None),
     "gen": ("units/gen.rs", None),
     "parse": ("units/parse.rs", None),
     "cmp": ("units/cmp.rs", None),
@@ -93,12 +94,12 @@ PLAN["C06"] = dict(
     level="proof",
 )
 PLAN["C09"] = dict(
-    verus=dict(quick=["map.f64"], thorough=["map.f64", "map.of64"]),
-    kani=dict(quick=[], thorough=[]),
+    verus=dict(quick=["map.f64", "rank", "gen"], thorough=["map.f64", "map.of64", "rank", "gen"]),
+    kani=dict(quick=["gen_linspace"], thorough=["gen_linspace"]),
     level="proof",
 )
 PLAN["C10"] = dict(
-    verus=dict(quick=["drv", "cmp"], thorough=["drv", "cmp"]),
+    verus=dict(quick=["drv", "cmp", "rank"], thorough=["drv", "cmp", "rank"]),
     kani=dict(quick=[], thorough=[]),
     level="proof",
 )
@@ -112,6 +113,12 @@ PLAN["C18"] = dict(
 PLAN["C19"] = dict(
     verus=dict(quick=["gen"], thorough=["gen"]),
     kani=dict(quick=["gen_range", "gen_linspace"], thorough=["gen_range", "gen_linspace", "gen_range_wide"]),
+    level="proof",
+)
+
+PLAN["C12"] = dict(
+    verus=dict(quick=["rank"], thorough=["rank"]),
+    kani=dict(quick=[], thorough=[]),
     level="proof",
 )
 
